@@ -1,6 +1,6 @@
 CONSTANTS Engines = {"sherpa", "olla"}  Paths = ${Paths}
           SensNames = ${SensNames}  HopNames = ${HopNames}  FwdNames = ${FwdNames}  OtherNames = ${OtherNames}
-          Variants = ${Variants}  Shape = "${Shape}"  Pads = ${Pads}
+          Variants = ${Variants}  Shape = "${Shape}"  Pads = ${Pads}  Stride = ${Stride}
 SPECIFICATION Spec
 INVARIANT Export
 CHECK_DEADLOCK FALSE
